@@ -140,7 +140,7 @@ func expectedFromCredential(f []string, clusterTok string) (a authed, ok bool) {
 		sub := wire.Dec(f[6])
 		parts := strings.Split(sub, ":")
 		if !tokenPresented(f[1], f[4]) || f[5] != "ok" || f[7] != "list" || f[6] == "absent" || len(parts) < 4 ||
-			!strings.HasPrefix(sub, "system:serviceaccount") {
+			!strings.HasPrefix(sub, "system:serviceaccount") || parts[2] == "" || parts[3] == "" {
 			return a, false
 		}
 		for _, x := range wire.DecList(f[8]) {
@@ -214,6 +214,10 @@ func expectedFromCredential(f []string, clusterTok string) (a authed, ok bool) {
 			}
 		}
 		return a, len(a.ids) > 0
+	case "tlscert":
+		vals, ok := tlsCertExpected(f)
+		a.ids = vals
+		return a, ok && len(vals) > 0
 	case "cert":
 		if f[2] != "tls" || f[3] == "-" {
 			return a, false
@@ -292,6 +296,9 @@ func oracleIssue(in, outp string) {
 			want = append(want, oracleSAN(id))
 		}
 		l := res.leaf
+		if !l.sanCritical && len(l.subject) == 0 {
+			fail("san-not-critical-with-empty-subject", line) // RFC 5280 4.2.1.6: required for an empty subject
+		}
 		if l.sanCount != 1 || strings.Join(l.sans, ",") != strings.Join(want, ",") {
 			fail("san-exact", "want="+strings.Join(want, ",")+" "+line)
 		}
@@ -381,6 +388,9 @@ func oracleIssue(in, outp string) {
 			res, _, err := s.runA(a)
 			if err != nil {
 				continue
+			}
+			if res.rejected {
+				continue // the TLS handshake was refused: no request, no certificate
 			}
 			if res.crash {
 				if a.spec[0] == "xfcc" && !peerIsNetworkAddress(a.spec[3]) {
